@@ -52,7 +52,7 @@ Section Wf.
       inv_bind H. eapply IH; [|exact H]. simpl. eapply IH; [|exact E]. reflexivity.
     - (* CPrim *)
       destruct ts as [|t ts']; [discriminate|].
-      destruct t as [k|v|v]; [|eapply IH; [|exact H]; reflexivity|discriminate].
+      destruct t as [k|v|v]; [|destruct (pt_numnum T || negb (kind_eqb (hdk ts') KNum)); [eapply IH; [|exact H]; reflexivity|discriminate]|discriminate].
       destruct k; try discriminate;
         try (destruct (pt_const T _) eqn:Ec; [inversion H; subst; reflexivity|];
              destruct (pt_open T _) as [[close w]|] eqn:Eo; [|discriminate];
